@@ -2,10 +2,12 @@ SPEC = dict(
     claimed=True,
     title='Stopping regulation hands the fan back or leaves it at full speed',
     props_file='Props/C03.v', props_mod='Props.C03',
-    proof_files=['Proofs/Restore.v', 'Proofs/Daemon.v', 'Drv/Restore.v', 'Drv/Daemon.v'],
+    proof_files=['Proofs/Restore.v', 'Proofs/Daemon.v', 'Drv/Restore.v', 'Drv/Daemon.v', 'Drv/CtlRun.v'],
     tie_vo=['Proofs/ConstsTie_basic.vo', 'Proofs/ConstsTie_restore.vo'],
     drivers=[dict(name='restore', drv_mod='Drv.Restore', drv_file='Drv/Restore.v', shard=700,
                   timeout={'quick': 600, 'thorough': 1200}),
+             dict(name='ctlrun', drv_mod='Drv.CtlRun', drv_file='Drv/CtlRun.v', shard=50,
+                  args={'quick': ['reps=1'], 'thorough': ['reps=6']}, timeout={'quick': 600, 'thorough': 1800}),
              dict(name='daemon', drv_mod='Drv.Daemon', drv_file='Drv/Daemon.v', shard=50,
                   args={'quick': ['n=24'], 'thorough': ['n=400']}, timeout={'quick': 600, 'thorough': 3000})],
     rule='restore: exhaustive over backend (hwmon/file/cmd) x pwmN_enable present/absent x original mode {0,1,2,3,5} x original PWM '
@@ -16,12 +18,15 @@ SPEC = dict(
          'script; sleeps scaled 1/20, 15-30 ms tick rates); scenarios: 1-3 SIGTERM/SIGINT sent when every fan is ticking / gathering (start-up wait) / the last fan '
          'entered its first-second delay, 4 further signals when the restore of the slow fan is seen, 5 the RPM sensor of a fan under initialisation fails while the '
          'others regulate (Run returns an error), 6/7 the PID sensor of fan 0 fails (control error; without/with RPM monitor, then signals); quick 24 schedules, thorough 400; '
-         'signals are sent on log markers only.',
+         'signals are sent on log markers only. ctlrun: the real DefaultFanController.Run in-process (real HwMonFan on temp files, real bbolt persistence decorated '
+         'to fail single operations, stub curve that counts evaluations and injects the event at its 3rd evaluation): second load fails / is empty after a successful '
+         'initialisation, hwmon fan without RPM input, control error with the device gone / present, cancellation while ticking, placeholder data not storable, failing '
+         'initialisation; x original mode {2,1,0} x pwm_enable present/absent.',
     assumptions=[
         'oracle (oklog/run): the first actor to return triggers every interrupt function once; Group.Run returns only after all actors returned',
         'oracle (runtime): os.Exit follows g.Run; a signal is delivered into the one-element buffer of the notify channel or dropped; a send on a closed channel panics the process',
         'oracle (scheduler): context cancellation is observed by a controller only at its tick select (any interleaving of the events of Model/Daemon.v is a schedule; disabled events are no-ops)',
-        'C03_process speaks about controllers whose regulation began (inner run group started) and about the failed-initialisation path; a failing second LoadFanPwmData/AttachFanRpmCurveData after a successful initialisation returns without restore (process_startup_gap)',
+        'C03_process speaks about every controller whose regulation began or whose fan was touched at all (initialisation sequence, PWM-map sweep)',
         'orig = the (mode, PWM) fan2go captured at start-up; equal to the device state when the two start-up reads succeed (capture_faithful)',
         'device oracle: every write is answered Ok (state changes), Refused (error) or Ignored (success reported, state unchanged); every read Ok / Fails / Garbage / PermissionDenied',
         'D22 hypothesis of C03_restore_local: not (mode write ignored AND read-back answered EACCES)',
